@@ -16,11 +16,10 @@ COMPONENTS = {'real': ['bronzebeard/dfu.py (cli_main, request builders, polling 
               'stub': ['usb package + device (SimDfuSe reference model with error-status injector)', 'time (SimClock)']}
 ASSUMPTIONS = ['device reports a failed erase/write through bStatus != OK and bState dfuERROR in the completing GETSTATUS reply (DFU 1.1 6.1.2)',
                'after an error a compliant device STALLs further DNLOADs until CLRSTATUS; the "lenient" knob models bootloaders that do not',
-               'errors on the set-address sub-step are injected and counted but are observations (C19 speaks of erase and write)']
-REQUIRED_REACH = {'quick': ['clause2:error-reported-erase', 'clause2:error-reported-write', 'clause1:oversize-offered'],
-                  'thorough': ['clause2:error-reported-erase', 'clause2:error-reported-write', 'clause1:oversize-offered']}
-EXPECTED_REACH = ['clause2:error-on-last-write', 'clause2:error-on-last-erase', 'clause2:two-errors-reported', 'dev:lenient-recover',
-                  'clause2:setaddr-error-reported', 'dev:stall'] + ['clause2:status-%d' % s for s in range(1, 16)]
+               'a page write is the set-address command plus the data download: an error status on either sub-step counts as an error of that write']
+REQUIRED_REACH = {'quick': ['clause2:error-reported-erase', 'clause2:error-reported-write', 'clause2:error-reported-setaddr', 'clause1:oversize-offered'],
+                  'thorough': ['clause2:error-reported-erase', 'clause2:error-reported-write', 'clause2:error-reported-setaddr', 'clause1:oversize-offered']}
+EXPECTED_REACH = ['clause2:error-on-last-write', 'clause2:error-on-last-erase', 'clause2:setaddr-error-reported'] + ['clause2:status-%d' % s for s in range(1, 16)]
 CHUNK = 200
 
 parent_init = dfusim.parent_init
@@ -34,17 +33,18 @@ def plan(tier, seed):
         size = VARIANTS[v] * PAGE
         for n in (size + 1, size + 2, size + 1023, size + 1024, size + 1025, 2 * size, 2 * size + 1):
             for s in (0, 1):
-                specs.append({'k': 'o', 'v': v, 'len': n, 'se': s})
+                for rep in range(3):
+                    specs.append({'k': 'o', 'v': v, 'len': n, 'se': s, 'rep': rep})
     maxp = 6 if tier == 'quick' else 16
     maxpair = 4 if tier == 'quick' else 8
     for pages in range(1, maxp + 1):
-        for op in ('erase', 'write'):
+        for op in ('erase', 'setaddr', 'write'):
             for n in range(pages):
                 for status in range(1, 16):
                     for lenient in (0, 1):
                         specs.append({'k': 'e1', 'p': pages, 'e': [[op, n, status]], 'l': lenient})
     for pages in range(1, maxpair + 1):
-        pts = [(op, n) for op in ('erase', 'write') for n in range(pages)]
+        pts = [(op, n) for op in ('erase', 'setaddr', 'write') for n in range(pages)]
         for a in pts:
             for b in pts:
                 if a != b:
@@ -70,7 +70,12 @@ def make_scenario(spec, seed, idx):
             size = VARIANTS[v] * PAGE
             n = size + r.choice((1, 2, 3, 1023, 1024, r.randint(1, size), r.randint(1, 4 * size)))
             se = r.choice((0, 0, r.randint(1, 15)))
-        base.update(clause=1, variant=v, fw={'len': n, 'kind': 'random', 'seed': r.randrange(1 << 30)},
+        fwk = r.choice(('random', 'random', 'tail', 'tail', 'ff', 'zeros'))
+        fw = {'len': n, 'kind': fwk, 'seed': r.randrange(1 << 30)}
+        if fwk == 'tail':
+            # everything beyond the flash size (or beyond some earlier point) is one fill byte: padding-like
+            fw.update(head=r.choice((VARIANTS[v] * PAGE, VARIANTS[v] * PAGE, VARIANTS[v] * PAGE - 1, r.randint(0, VARIANTS[v] * PAGE))), fill=r.choice((255, 255, 0)))
+        base.update(clause=1, variant=v, fw=fw,
                     init={'kind': r.choice(('ff', 'random', 'old')), 'seed': r.randrange(1 << 30)},
                     start_error=se, sched=dfusim.canonical_sched(r.choice((0, 1, 2))))
         return base
@@ -144,12 +149,10 @@ def run_scenario(scen, keep_events=False):
             res.violate('oversize-accepted', 'exit', 'oversize image (%d > %d): run ended %s, success announced=%s' % (n, size, outcome, announced))
         sig_extra = 'over%d' % min(n - size, 1025)
     else:
-        rep = [e for e in dev.errors_reported if e[0] in ('erase', 'write')]
-        other = [e for e in dev.errors_reported if e[0] not in ('erase', 'write')]
-        if other:
+        # a page write is the set-address command plus the data download: an error status on either is an error of that write
+        rep = [e for e in dev.errors_reported if e[0] in ('erase', 'write', 'setaddr')]
+        if any(e[0] == 'setaddr' for e in rep):
             res.hit('clause2:setaddr-error-reported')
-            if outcome == 'ok' or announced:
-                res.observe('setaddr-error-then-success')
         if rep:
             res.nontrivial = True
             kinds = set(e[0] for e in rep)
